@@ -47,16 +47,16 @@ pub struct Case<'a> {
 pub fn pool_shapes(ctx: &Ctx, alg: Alg) -> Vec<(Vec<Level>, Vec<u64>)> {
     let mut v: Vec<(Vec<Level>, Vec<u64>)> = Vec::new();
     for w in [1u32, 2, 4, 8] {
-        v.push((vec![Level { h: 2, w }], vec![0, 3]));
+        v.push((vec![Level { h: crate::common::h2(), w }], vec![0, 3]));
     }
     let w5 = if alg.is_shake() { 4 } else { 8 };
     v.push((levels(&[(5, w5)]), vec![0, 17, 31]));
     v.push((levels(&[(2, 8), (2, 4)]), vec![0, 5, 15]));
     v.push((levels(&[(2, 4), (2, 8), (2, 2)]), vec![0, 21, 63]));
-    v.push(((0..8).map(|_| Level { h: 2, w: 8 }).collect(), vec![0, 40000]));
+    v.push(((0..8).map(|_| Level { h: crate::common::h2(), w: 8 }).collect(), vec![0, 40000]));
     if alg.n() == 32 {
         // longer than 65535 bytes
-        v.push(((0..8).map(|_| Level { h: 2, w: 1 }).collect(), vec![9]));
+        v.push(((0..8).map(|_| Level { h: crate::common::h2(), w: 1 }).collect(), vec![9]));
     }
     if !ctx.quick() {
         v.push((levels(&[(5, 4), (2, 8)]), vec![0, 127]));
@@ -91,6 +91,35 @@ pub fn build_pool(ctx: &Ctx, rng: &mut Rng, cache: &mut TreeCache, tool: Option<
                     pool.push(Triple { alg, levels: lv.clone(), seed: seed.clone(), counter: c, msg, sig: msig, pk: kp.vk.clone(), origin: "model-randomC" });
                 }
             }
+        }
+    }
+    // signatures of keys whose trees could never be generated (heights 15, 20, 25; several tall
+    // levels): valid to any verifier, built by running the verification recurrence forwards
+    for alg in model::ALL_ALGS {
+        let cfg = lcfg(alg);
+        let mut shapes: Vec<Vec<(u32, u32)>> = vec![vec![(15, 8)], vec![(20, 4)], vec![(25, 8)], vec![(25, 2), (20, 8)]];
+        if alg.n() == 32 || !ctx.quick() {
+            shapes.push(vec![(10, 8), (15, 4), (25, 8)]);
+            shapes.push((0..8).map(|i| ([25u32, 20, 15, 10, 25, 5, 20, 25][i], 8u32)).collect());
+        }
+        if !ctx.quick() {
+            shapes.push(vec![(25, 1)]);
+            shapes.push(vec![(20, 1), (25, 2)]);
+        }
+        for (si, spec) in shapes.iter().enumerate() {
+            let lv = levels(spec);
+            let qs: Vec<u32> = lv
+                .iter()
+                .enumerate()
+                .map(|(i, l)| match (si + i) % 3 {
+                    0 => (1u32 << l.h) - 1,
+                    1 => 0,
+                    _ => rng.below(1u64 << l.h) as u32,
+                })
+                .collect();
+            let msg = rng.bytes([0usize, 1, 40, 200][si % 4]);
+            let (sig, pk) = hss::synthetic_triple(&cfg, &lv, &qs, &msg, rng);
+            pool.push(Triple { alg, levels: lv, seed: sig[4..12].to_vec(), counter: qs[0] as u64, msg, sig, pk, origin: "model-synthetic-tall" });
         }
     }
     // reference-tool signatures (SHA-256/32, real heights)
@@ -343,11 +372,14 @@ pub fn mutate(t: &Triple, others: &[Triple], rng: &mut Rng, opts: Opts, f: &mut 
                 sg.extend_from_slice(&t.sig[s.off_lmstype..]);
                 emit(f, t.alg, &t.msg, &sg, &t.pk, "otstype-recut", &format!("sig{li}.otstype"));
             }
-            for newlms in [1u32, 5, 6] {
+            for newlms in [1u32, 5, 6, 7, 8, 9] {
                 if newlms == s.lms_code {
                     continue;
                 }
-                let h2 = params::lms_height(&cfg, newlms).unwrap() as usize;
+                let h2 = match params::lms_height(&cfg, newlms) {
+                    Some(h) => h as usize,
+                    None => continue,
+                };
                 let mut sg = t.sig[..s.off_lmstype].to_vec();
                 sg.extend_from_slice(&newlms.to_be_bytes());
                 let have = &t.sig[s.off_path..s.end];
